@@ -608,6 +608,20 @@ func (g *c20Gen) source(dirComps []string, scanned bool, skipCat string, maxAnno
 	case 1:
 		out = append(out, "import (", "\t"+g.directive(g.decoy("import-doc")), "\t\"unsafe\"", ")", "")
 	}
+	if g.r.Chance(1, 24) {
+		// generated code: one very long line (a table or a string literal written on a single line, longer
+		// than the 64 KiB a default line scanner accepts) in front of whatever the file declares
+		n := g.r.PickInt([]int{65536, 65537, 70000})
+		g.catSeen["long-line"]++
+		switch g.r.Intn(3) {
+		case 0:
+			out = append(out, "var generatedTable = \""+strings.Repeat("x", n)+"\"", "")
+		case 1:
+			out = append(out, "// "+strings.Repeat("-", n), "")
+		default:
+			out = append(out, "var generatedBytes = [...]byte{"+strings.Repeat("0, ", n/3)+"0}", "")
+		}
+	}
 	nAnn := 0
 	if maxAnnot > 0 {
 		nAnn = g.r.Range(0, maxAnnot)
